@@ -698,7 +698,27 @@ class Interp:
                 return re.DOTALL
             if full in SAFE_ATTR_CALLS and not (isinstance(e.value, ast.Name) and e.value.id in env):
                 return SAFE_ATTR_CALLS[full]         # a whitelisted library function used as a value (compile_ = re.compile)
+            if isinstance(e.value, ast.Name) and e.value.id not in env and e.value.id not in self.extra_names and e.value.id not in self.consts:
+                bs = mod.syms.get(e.value.id)
+                if bs is not None and bs.kind == 'mod':
+                    # a module (or package) of the repository imported by name: its functions, classes and constants
+                    tm = self.prog.modules.get(bs.target)
+                    s2 = self.prog.resolve_expr(mod, e)
+                    if s2 is not None and s2.kind in ('func', 'class'):
+                        return ('#sym', s2)
+                    if tm is not None and tm.consts.get(e.attr) is not None:
+                        return self._modconst(tm, e.attr)
+                    if s2 is not None and s2.kind == 'const':
+                        tmn, _, tn = s2.target.rpartition('.')
+                        m2 = self.prog.modules.get(tmn)
+                        if m2 is not None and m2.consts.get(tn) is not None:
+                            return self._modconst(m2, tn)
+                    raise Unsupported('attribute %s of module %s' % (e.attr, bs.target))
             o = self.expr(e.value, env, mod) if not (isinstance(e.value, ast.Name) and e.value.id == 're') else None
+            if isinstance(o, tuple) and len(o) == 2 and o[0] == '#sym' and o[1].kind == 'class' and e.attr in ('__name__', '__qualname__', '__module__') \
+                    and o[1].target in self.prog.classes:
+                k_ = self.prog.classes[o[1].target]
+                return k_.mod.name if e.attr == '__module__' else k_.name
             if isinstance(o, tuple) and len(o) == 2 and o[0] == '#classof' and e.attr == '__name__':
                 return o[1].name
             if isinstance(o, tuple) and len(o) == 2 and o[0] == '#classof' and e.attr == '__module__':
@@ -954,6 +974,9 @@ class Interp:
             if fn.id in ('all', 'any', 'sorted', 'min', 'max', 'sum', 'list', 'tuple', 'set') and args and isinstance(args[0], list):
                 pass
             return SAFE_BUILTINS[fn.id](*self._py(args), **{k: self._py1(v) for k, v in kwargs.items()})
+        if isinstance(fn, ast.Attribute) and isinstance(fn.value, ast.Name) and fn.value.id not in env and fn.value.id not in self.extra_names \
+                and fn.value.id not in self.consts and mod.syms.get(fn.value.id) is not None and mod.syms[fn.value.id].kind == 'mod':
+            return self.apply(self.expr(fn, env, mod), args, kwargs)        # a function of a repository module imported by name
         if isinstance(fn, ast.Attribute):
             # method on a plain Python value
             try:
@@ -988,6 +1011,14 @@ class Interp:
                 m = self.prog.lookup_method(o[1].target, fn.attr)
                 if m is not None:
                     return self.invoke(m, args, kwargs, None)
+                if fn.attr == '__subclasses__' and not args:
+                    # the classes of the repository that name this one as a base, in the order they are defined
+                    from .model import Sym
+                    subs = [c for c in self.prog.classes.values() if o[1].target in c.bases]
+                    subs.sort(key=lambda c: (c.mod.name != self.prog.classes[o[1].target].mod.name, c.mod.name, c.node.lineno))
+                    return [('#sym', Sym('class', c.qn)) for c in subs]
+                if fn.attr == '__name__':
+                    pass
             if o in (dict, object) and fn.attr == '__init__' and args and isinstance(args[0], Obj):
                 # dict.__init__(self, ...) / object.__init__(self) of a repo class deriving from a built-in
                 if o is dict:
